@@ -2,12 +2,16 @@
    Property theorems only: each is closed by `exact` of a lemma proved in C19/Proofs.v or C19/Shift.v.
 
    What is PROVED here: (a) uptime.c (usec / msec / sec) for arbitrary poll sequences and arbitrary cycle
-   counts; (b) shift invariance of the shutter start/stop stamp logic (model of C08, code after
-   docs/fixes/C08_rs_wrap.diff).  The other stamp-carrying modules (inputs, countdown, devconn timing,
-   cfg mode) are covered by the trace comparison of corr/c19.py only. *)
+   counts; (b) shift invariance of the shutter start/stop stamp logic (model of C08); (c) shift invariance of
+   the whole input model of C11 (sampler, silent period, click chaining, hold, action triggers, relay actions);
+   (d) statements of narrower scope on the models of C07 (countdown: same switch-back window for every boot),
+   C12 (every time decision of the configuration button is a function of true-time gaps) and C04 (second
+   arithmetic under a whole-second boot shift; phase slip of 1 us per wrap).  Whole-trace boot independence of
+   the countdown, configuration-mode and devconn models is NOT proved (trace comparison of corr/c19.py only). *)
 From Coq Require Import List ZArith Bool.
 Import ListNotations.
 From V Require Import Base.U32 Gen.UptimeConsts C08.Model C08.Proofs C19.Model C19.Proofs C19.Shift.
+From V Require C11.Model C07.Model C07.Proofs C12.Model C04.Model C19.ShiftInputs C19.ShiftOthers.
 Local Open Scope Z_scope.
 
 (* (a) uptime_usec: for ANY sequence of polls (no condition on the time between polls), from any state with
@@ -80,3 +84,90 @@ Example C19_trunc_before_div_not_monotone :
   to_sec 4294967295999 = 4294967 /\ to_sec 4294967296000 = 4294967.
 Proof. exact trunc_before_div_not_monotone. Qed.
 Print Assumptions C19_trunc_before_div_not_monotone.
+
+(* ---------- (c) inputs: model of C11, imported ---------- *)
+(* From any pair of states whose last_state_change stamps differ by d modulo 2^32 (everything else equal), every
+   schedule of micro-steps (time passing, pin changes, each timer callback, trigger configuration) and every event
+   list of the harness scheduler keeps the states related: B = A with lsc shifted.  No exclusion is needed:
+   this module has no "0 = unset" stamp. *)
+Theorem C19_input_shift_micro : forall d c ms s,
+  C11.Model.mrun (ShiftInputs.cB d c) ms (ShiftInputs.sh d s) = ShiftInputs.sh d (C11.Model.mrun c ms s).
+Proof. exact ShiftInputs.input_shift_micro. Qed.
+Print Assumptions C19_input_shift_micro.
+
+Theorem C19_input_shift_events : forall d c evs s,
+  C11.Model.run_from (ShiftInputs.cB d c) (ShiftInputs.sh d s) evs = ShiftInputs.sh d (C11.Model.run_from c s evs).
+Proof. exact ShiftInputs.input_shift_events. Qed.
+Print Assumptions C19_input_shift_events.
+
+(* Two devices that differ only in the boot value of the counter, same initial pin level, same event list: identical
+   outputs (notifies, active/inactive, GPIO edges, value reports, action triggers, trigger configuration, config-mode
+   entry — each with its true time), identical relay, clock and halted flag; the final states differ at most in lsc.
+   Hypothesis: the input is not a configuration button (for a configuration button the first evaluation of the 2 s click
+   window reads lsc = 0, i.e. the raw counter: see C19_cfg_first_window_reads_raw_counter). *)
+Theorem C19_input_shift_invariance : forall c bootB l0 evs, C11.Model.cfg_btn c = false ->
+  let a := C11.Model.run c l0 evs in
+  let b := C11.Model.run (ShiftInputs.wb bootB c) l0 evs in
+  C11.Model.outs b = C11.Model.outs a /\ C11.Model.relay b = C11.Model.relay a /\
+  C11.Model.halted b = C11.Model.halted a /\ C11.Model.now b = C11.Model.now a /\
+  exists v, b = C11.Model.set_lsc v a.
+Proof. exact ShiftInputs.C19_input_shift_invariance_thm. Qed.
+Print Assumptions C19_input_shift_invariance.
+
+(* ---------- (d) countdown (C07), configuration button (C12), devconn seconds (C04) ---------- *)
+Theorem C19_countdown_window_any_boot : forall (wr : C07.Proofs.Wraps) c b evs S,
+  C07.Proofs.wf_cfg (ShiftOthers.CD.with_boot b c) -> Forall C07.Proofs.wf_ev evs ->
+  C07.Proofs.NWwrun true (ShiftOthers.CD.with_boot b c) (C07.Model.start true (ShiftOthers.CD.with_boot b c)) evs -> 0 <= S ->
+  C07.Proofs.Slack S (C07.Model.outs (C07.Model.run_from true (ShiftOthers.CD.with_boot b c) (C07.Model.start true (ShiftOthers.CD.with_boot b c)) evs)) ->
+  forall tcb ch tg t0 dur u0 u, In (C07.Model.GFinish tcb ch tg t0 dur u0 u) (C07.Model.run true (ShiftOthers.CD.with_boot b c) evs) ->
+    (dur - 1) * 1000 < tcb - t0 < dur * 1000 + Gen.RelayConsts.CD_MIN * 1000 + S + 2 * (8 * C07.Proofs.OP) + C07.Proofs.WB /\
+    In (C07.Model.GArm t0 ch dur tg) (C07.Model.run true (ShiftOthers.CD.with_boot b c) evs).
+Proof. exact ShiftOthers.CD.countdown_window_any_boot. Qed.
+Print Assumptions C19_countdown_window_any_boot.
+
+Theorem C19_cfg_toggle_count_boot_independent : forall b b' t1 t2 s x stt,
+  C12.Model.legacy_count (ShiftOthers.CB.with_clock b t2 s) (ShiftOthers.CB.with_lsc x (ShiftOthers.CB.stamp_at b t1)) stt =
+  C12.Model.legacy_count (ShiftOthers.CB.with_clock b' t2 s) (ShiftOthers.CB.with_lsc x (ShiftOthers.CB.stamp_at b' t1)) stt.
+Proof. exact ShiftOthers.CB.toggle_count_boot_independent. Qed.
+Print Assumptions C19_cfg_toggle_count_boot_independent.
+
+(* the known finding toggle-gap-u32-wrap of C12 is about the gap (k periods + g behaves like g), for every boot alike *)
+Theorem C19_cfg_toggle_gap_class_is_about_gaps : forall b t1 g k s x stt,
+  C12.Model.legacy_count (ShiftOthers.CB.with_clock b (t1 + g + k * 4294967296) s) (ShiftOthers.CB.with_lsc x (ShiftOthers.CB.stamp_at b t1)) stt =
+  C12.Model.legacy_count (ShiftOthers.CB.with_clock b (t1 + g) s) (ShiftOthers.CB.with_lsc x (ShiftOthers.CB.stamp_at b t1)) stt.
+Proof. exact ShiftOthers.CB.toggle_gap_class_is_about_gaps. Qed.
+Print Assumptions C19_cfg_toggle_gap_class_is_about_gaps.
+
+Theorem C19_cfg_hold_and_exit_decisions : forall b b' t1 t2 limit,
+  (limit <=? u32 (u32 (b + t2) - ShiftOthers.CB.stamp_at b t1)) = (limit <=? u32 (u32 (b' + t2) - ShiftOthers.CB.stamp_at b' t1)) /\
+  (3000000 <? u32 (u32 (b + t2) - ShiftOthers.CB.stamp_at b t1)) = (3000000 <? u32 (u32 (b' + t2) - ShiftOthers.CB.stamp_at b' t1)).
+Proof. exact (fun b b' t1 t2 limit => conj (ShiftOthers.CB.hold_decision_boot_independent b b' t1 t2 limit) (ShiftOthers.CB.exit_decision_boot_independent b b' t1 t2)). Qed.
+Print Assumptions C19_cfg_hold_and_exit_decisions.
+
+(* a genuine (harmless) dependence on the raw counter: last_state_change starts at 0, not at a sampled stamp *)
+Theorem C19_cfg_first_window_reads_raw_counter : forall b t s x stt, C12.Model.i_lsc x = 0 ->
+  C12.Model.legacy_count (ShiftOthers.CB.with_clock b t s) x stt =
+  if 2000000 <=? u32 (b + t) then 1 else if C12.Model.counted_legacy x stt then s8 (C12.Model.i_cnt x + 1) else C12.Model.i_cnt x.
+Proof. exact ShiftOthers.CB.first_window_reads_raw_counter. Qed.
+Print Assumptions C19_cfg_first_window_reads_raw_counter.
+
+(* devconn seconds: what the trace comparison of corr/c19.py assumes (boots of one case are equal modulo 10^6) *)
+Theorem C19_devconn_second_phase : forall b K s,
+  0 <= b + C04.Model.now s -> b + K * 1000000 + C04.Model.now s < 4294967296 -> 0 <= K ->
+  C04.Model.uptime_usec (ShiftOthers.DC.with_boot (b + K * 1000000) s) = C04.Model.uptime_usec (ShiftOthers.DC.with_boot b s) + K * 1000000 /\
+  C04.Model.uptime_usec (ShiftOthers.DC.with_boot b s) / 1000 / 1000 + K =
+  C04.Model.uptime_usec (ShiftOthers.DC.with_boot (b + K * 1000000) s) / 1000 / 1000.
+Proof. exact ShiftOthers.DC.uptime_phase. Qed.
+Print Assumptions C19_devconn_second_phase.
+
+Theorem C19_devconn_second_comparisons : forall u l K,
+  u32 (u32 (u + K) - u32 (l + K)) = u32 (u - l) /\
+  (0 <= l -> 0 <= u -> 0 <= K -> u + K < 4294967296 -> l + K < 4294967296 -> (u32 (l + K) <? u32 (u + K)) = (l <? u)).
+Proof. exact (fun u l K => conj (ShiftOthers.DC.second_diff_shift u l K) (ShiftOthers.DC.second_order_shift u l K)). Qed.
+Print Assumptions C19_devconn_second_comparisons.
+
+Example C19_devconn_phase_slips_one_us_per_wrap : forall s, C04.Model.now s = 2000000 -> C04.Model.cycles0 s = 0 ->
+  C04.Model.uptime_usec (ShiftOthers.DC.with_boot (4294967296 - 1000000) s) = 4294967296 - 1000000 + 2000000 - 1 /\
+  C04.Model.uptime_usec (ShiftOthers.DC.with_boot 0 s) = 2000000.
+Proof. exact ShiftOthers.DC.phase_slips_one_us_per_wrap. Qed.
+Print Assumptions C19_devconn_phase_slips_one_us_per_wrap.
